@@ -117,6 +117,69 @@ def rule_core(ctx):
     return res.finish(3)
 
 
+def rule_metric(ctx):
+    """DBSCAN and OPTICS are generic over the metric: neighbourhoods, core distances and reachability distances are all
+    taken in the metric the caller configured.  A distance computed with a concrete metric type inside this generic code
+    (`L2Dist.distance(..)`) agrees with it only when the configured metric happens to be that one - the default."""
+    res = RuleResult("R-C08-metric", "every distance in DBSCAN / OPTICS is computed with the configured metric (no concrete metric type inside the generic code)")
+    F = ctx.facts()
+    n = 0
+    for fn in cl_fns(F, "dbscan") + cl_fns(F, "optics"):
+        d = fn["d"]
+        if "tests" in d["path"] or fn.get("exp"):
+            continue
+        c = fn["crate"]
+        r = Render(c)
+        key = fn_key(fn)
+        for y in walk(fn["body"]):
+            if y.get("k") != "MethodCall" or y["name"] not in ("distance", "rdistance", "dist_to_rdist", "rdist_to_dist"):
+                continue
+            dd = c.dfn(y.get("def")) or {}
+            if dd.get("krate") != "linfa_nn":
+                continue
+            n += 1
+            res.instance("%s : `%s`" % (key, r.e(y)[:50]))
+            rt = (c.ty(peel_refs(y["recv"]).get("t")) or "").lstrip("&").strip()
+            concrete = re.search(r"\b(L1Dist|L2Dist|LInfDist|LpDist)\b", rt)
+            if concrete:
+                res.violate("%s : concrete-metric:%s" % (key, concrete.group(1)), "`%s` computes a distance with `%s` inside code that is generic over the metric: with any other configured metric this value is on another scale than the neighbourhoods and core distances it is combined with" % (r.e(y)[:50], concrete.group(1)), fn_loc(fn, y.get("ln")))
+            else:
+                res.ok()
+    if n < 2:
+        res.missing_anchor("distance computations in optics / dbscan (found %d)" % n)
+    return res.finish(2)
+
+
+def rule_corerank(ctx):
+    """The core distance of a point is the distance to its min_points-th nearest neighbour, itself included: element
+    min_points - 1 of the neighbours sorted by distance.  The rank is a function of min_points alone - nothing between the
+    sorted list and the selection may drop elements depending on their values."""
+    res = RuleResult("R-C08-corerank", "OPTICS takes the core distance from the neighbour of rank min_points - 1, with no value-dependent adaptor in between")
+    F = ctx.facts()
+    fns = [f for f in cl_fns(F, "optics") if f["d"]["name"] == "set_core_distance"]
+    if not fns:
+        res.missing_anchor("OpticsValidParams::set_core_distance")
+    for fn in fns:
+        c = fn["crate"]
+        r = Render(c)
+        key = fn_key(fn)
+        res.instance(key)
+        asg = next((y for y in walk(fn["body"]) if y.get("k") == "Assign" and peel_refs(y["l"]).get("k") == "Field" and peel_refs(y["l"])["name"] == "core_distance"), None)
+        if asg is None:
+            res.undecided("%s : store" % key, "no assignment to core_distance (fail closed)", fn_loc(fn))
+            continue
+        chain = [y["name"] for y in walk(asg["r"]) if y.get("k") == "MethodCall"]
+        dropping = [m for m in chain if m in ("skip_while", "take_while", "filter", "filter_map", "dedup", "dedup_by", "dedup_by_key", "rev", "step_by", "map_while")]
+        picks = [m for m in chain if m in ("get", "nth")]
+        if dropping:
+            res.violate("%s : rank-depends-on-values:%s" % (key, dropping[0]), "`.%s(..)` stands between the sorted neighbours and the selection: how many elements it removes depends on the data (a run of equal points is removed as a whole), so the element picked is not the one of rank min_points - 1" % dropping[0], fn_loc(fn, asg.get("ln")))
+        elif not picks:
+            res.undecided("%s : selection" % key, "`%s`: no get / nth selection (fail closed)" % r.e(asg["r"])[:50], fn_loc(fn, asg.get("ln")))
+        else:
+            res.ok()
+    return res.finish(1)
+
+
 def rule_self(ctx):
     res = RuleResult("R-C08-self", "the neighbour count includes every element of the range query, the query point itself included")
     F = ctx.facts()
@@ -647,6 +710,10 @@ def rule_seedarms(ctx):
 
 
 def rules(tier):
+    return [rule_metric, rule_corerank, c07.rule_convpair] + _rules(tier)
+
+
+def _rules(tier):
     from . import carry, c04
     from . import precision
     from . import c07
